@@ -204,6 +204,114 @@ fn slow_condition_scenario(r: &mut Report, k: u64) {
     drop(silent);
 }
 
+/// "Until the signal is sent the server keeps serving": while the accept thread is busy with one connection (a condition
+/// that waits up to 400 ms for the first byte), other clients connect and go away again before they are accepted - one
+/// with a reset (SO_LINGER 0), one with a normal close. Whatever `accept` and the calls on such a socket report, the
+/// server serves the next clients, `run` has not returned, and the signal still ends it (seeded C20-M).
+fn reset_in_backlog_scenario(r: &mut Report, k: u64) {
+    use std::io::Write;
+    fn wait_first_byte(stream: &mut TcpStream, _: Arc<()>) -> bool {
+        let _ = stream.set_read_timeout(Some(Duration::from_millis(400)));
+        let mut b = [0u8; 1];
+        let _ = stream.peek(&mut b);
+        let _ = stream.set_read_timeout(None);
+        true
+    }
+    let port = hvcommon::net::free_port("127.0.0.1");
+    let addr: SocketAddr = format!("127.0.0.1:{}", port).parse().unwrap();
+    let (tx, rx) = channel();
+    let (dtx, drx) = channel();
+    let app: App<()> = App::new_with_config(2 + (k % 3) as usize, ()).with_route("/fast", |_: Request, _: Arc<()>| Response::new(StatusCode::OK, "fast")).with_connection_condition(wait_first_byte).with_shutdown(rx);
+    std::thread::spawn(move || {
+        let _ = app.run(addr);
+        dtx.send(Instant::now()).ok();
+    });
+    let ask = |wait_ms: u64| -> bool {
+        match TcpStream::connect(addr) {
+            Ok(mut s) => {
+                let _ = s.write_all(b"GET /fast HTTP/1.1\r\nHost: hv\r\nConnection: close\r\n\r\n");
+                let mut sink = Vec::new();
+                let _ = s.set_read_timeout(Some(Duration::from_millis(wait_ms)));
+                let _ = s.read_to_end(&mut sink);
+                sink.starts_with(b"HTTP/1.1 200")
+            }
+            Err(_) => false,
+        }
+    };
+    let mut up = false;
+    for _ in 0..400 {
+        if TcpStream::connect(addr).is_ok() {
+            up = ask(5000);
+            break;
+        }
+        std::thread::sleep(Duration::from_millis(3));
+    }
+    r.eval();
+    r.count("reset_in_backlog_scenarios", 1);
+    r.nontrivial(0x20c8_0000 + k);
+    if !up {
+        r.inconclusive("reset-in-backlog app did not start serving");
+        return;
+    }
+    let replay = vec!["c20".to_string(), "--reset-in-backlog".into(), k.to_string()];
+    // (the readiness probe's own silent connect is examined first: give the accept thread time to get past it)
+    std::thread::sleep(Duration::from_millis(450));
+    for round in 0..(2 + k % 2) {
+        // A keeps the accept thread busy in the condition ...
+        let mut a = match TcpStream::connect(addr) {
+            Ok(a) => a,
+            Err(e) => {
+                r.violation("C20/stopped-serving-without-signal:threaded", format!("[threaded] round {}: connecting failed ({}) although no shutdown signal was sent", round, e), hvcommon::json::J::Null, replay);
+                return;
+            }
+        };
+        std::thread::sleep(Duration::from_millis(50));
+        // ... while B is reset and C closed in the accept queue
+        for reset in [true, false, true] {
+            if let Ok(s) = socket2::Socket::new(socket2::Domain::IPV4, socket2::Type::STREAM, None) {
+                if s.connect_timeout(&addr.into(), Duration::from_secs(2)).is_ok() {
+                    if reset {
+                        let _ = s.set_linger(Some(Duration::from_secs(0)));
+                    }
+                    r.count(if reset { "connections_reset_before_accept" } else { "connections_closed_before_accept" }, 1);
+                }
+                drop(s);
+            }
+        }
+        std::thread::sleep(Duration::from_millis(30));
+        let _ = a.write_all(b"GET /fast HTTP/1.1\r\nHost: hv\r\nConnection: close\r\n\r\n");
+        let mut sink = Vec::new();
+        let _ = a.set_read_timeout(Some(Duration::from_secs(5)));
+        let _ = a.read_to_end(&mut sink);
+        std::thread::sleep(Duration::from_millis(500));
+        if drx.try_recv().is_ok() {
+            r.violation("C20/run-returned-without-signal:threaded", format!("[threaded] run() returned although no shutdown signal was sent, after clients reset / closed their connections while these were still in the accept queue (round {})", round), hvcommon::json::J::Null, replay);
+            return;
+        }
+        let served = (0..3).filter(|_| ask(5000)).count();
+        if served < 3 {
+            r.violation("C20/stopped-serving-without-signal:threaded", format!("[threaded] after clients reset / closed their connections while these were still in the accept queue (round {}), only {} of 3 further clients were served, although no shutdown signal was sent", round, served), hvcommon::json::J::Null, replay);
+            return;
+        }
+        r.count("served_after_resets_in_the_accept_queue", 3);
+    }
+    let t_signal = Instant::now();
+    tx.send(()).ok();
+    match drx.recv_timeout(Duration::from_secs(10)) {
+        Err(_) => r.violation("C20/run-did-not-return:threaded", "[threaded] run() had not returned 10 s after the shutdown signal (after connections were reset in the accept queue)".to_string(), hvcommon::json::J::Null, replay),
+        Ok(t) => {
+            r.max("max_ms_signal_to_return", t.saturating_duration_since(t_signal).as_millis() as u64);
+            match std::net::TcpListener::bind(addr) {
+                Ok(l) => {
+                    drop(l);
+                    r.count("rebinds_ok", 1);
+                }
+                Err(e) => r.violation("C20/port-not-free:threaded", format!("[threaded] re-binding {} after run() returned failed: {}", addr, e), hvcommon::json::J::Null, replay),
+            }
+        }
+    }
+}
+
 /// A connection condition that turns every new connection away (an application closing its doors before it stops):
 /// the shutdown signal still ends run(), whatever the condition says about the connection that wakes the accept loop.
 fn rejecting_condition_scenario(r: &mut Report, k: u64) {
@@ -286,6 +394,9 @@ pub fn main(args: &Args) {
         if only.is_none() && shard >= 8 {
             rejecting_condition_scenario(&mut r, shard as u64);
         }
+        if only.is_none() && shard % 2 == 1 {
+            reset_in_backlog_scenario(&mut r, shard as u64);
+        }
         let mut k = only.unwrap_or(shard as u64);
         while k < n || only == Some(k) {
             let mut rng = Rng::derive(seed, 0x2000_0000 + k);
@@ -327,5 +438,5 @@ pub fn main(args: &Args) {
         total.nontrivial(1);
         total.nontrivial(2);
     }
-    total.write(out, "traffic states of 0..16 connections each in {just accepted, idle keep-alive, half-sent request, handler running 5 ms / 500 ms / 1.2-3 s, 1-4 MiB response to a reader that is not reading, WebSocket open} on pools of 1..8 threads (incl. fully occupied pools with queued connections), bound to 127.0.0.1, 0.0.0.0 or [::]; signal sent before any connection, after the traffic has settled, or from another thread during the burst of connects; seeded delays at the two accept-loop failpoints; plus applications whose connection condition keeps the accept thread busy for up to 1.2 s per connection, signalled while a silent client is being examined. distinct = distinct scenarios; every scenario is non-trivial (return, re-bind and in-flight responses are judged)", None, &["bounded progress: run must return within 10 s of the signal (typical: milliseconds)", "connections racing with the signal may get a complete response or nothing, never a truncated one; a request on a connection that the application itself had reported as accepted (monitor event ConnectionSuccess) before the signal is not racing: it must be answered even if it was still queued behind occupied workers", "the process is kept alive so that handlers started before the signal can finish (as the property's observation point prescribes)"]);
+    total.write(out, "traffic states of 0..16 connections each in {just accepted, idle keep-alive, half-sent request, handler running 5 ms / 500 ms / 1.2-3 s, 1-4 MiB response to a reader that is not reading, WebSocket open} on pools of 1..8 threads (incl. fully occupied pools with queued connections), bound to 127.0.0.1, 0.0.0.0 or [::]; signal sent before any connection, after the traffic has settled, or from another thread during the burst of connects; seeded delays at the two accept-loop failpoints; plus applications whose connection condition keeps the accept thread busy for up to 1.2 s per connection, signalled while a silent client is being examined, and clients that reset or close their connections while these are still in the accept queue behind such a connection (the server must go on serving). distinct = distinct scenarios; every scenario is non-trivial (return, re-bind and in-flight responses are judged)", None, &["bounded progress: run must return within 10 s of the signal (typical: milliseconds)", "connections racing with the signal may get a complete response or nothing, never a truncated one; a request on a connection that the application itself had reported as accepted (monitor event ConnectionSuccess) before the signal is not racing: it must be answered even if it was still queued behind occupied workers", "the process is kept alive so that handlers started before the signal can finish (as the property's observation point prescribes)"]);
 }
